@@ -473,7 +473,9 @@ class ValueGen:
                         cands = cands + [c + ("other",) for c in self.avail(t2)]
             if cands:
                 c = rng.choice(cands)
-                return {"obj": c[0]}
+                # (the source object given through its constructor handle or through a view rebuilt from
+                # the bytes: the two keep their shape in different containers)
+                return {"obj": c[0], "view": rng.random() < 0.4}
         maxext = self.sw.get("max_extent", 4)
         shape = [d if d is not None else rng.choice([0, 1, 2, 2, 3, maxext]) for d in ty["shape"]]
         if depth > 2:
@@ -575,7 +577,7 @@ class Materialiser:
         if k == "ref":
             if spec is None:
                 return None, RefLeaf(None)
-            if "obj" in spec and isinstance(spec, dict) and set(spec) == {"obj"}:
+            if "obj" in spec and isinstance(spec, dict) and set(spec) <= {"obj", "view"}:
                 o = self._obj(spec["obj"])
                 if o.t != ty["to"]:
                     a, b = schema[o.t], schema[ty["to"]]
@@ -635,15 +637,16 @@ class Materialiser:
         item = ty["item"]
         if "obj" in spec:
             o = self._obj(spec["obj"])
+            hnd = o.view() if spec.get("view") else o.handle()
             if o.t != t:
                 so = schema[o.t]
                 static_ok = all(d is None or d == n for d, n in zip(ty["shape"], o.node.shape))
                 if so["k"] == "array" and schema[so["item"]]["k"] == "sc" and so["item"] == item and len(so["shape"]) == len(ty["shape"]) and static_ok:
                     # an array object of another class (other axis order / static vs dynamic shape) with
                     # the same item type and a fitting shape: an accepted input form, element by element
-                    return o.handle(), ArrayNode(t, o.node.shape, list(o.node.items))
+                    return hnd, ArrayNode(t, o.node.shape, list(o.node.items))
                 raise KeyError("type mismatch")
-            return o.handle(), copy_node(schema, t, o.node, o.bufid == self.holder_buf)
+            return hnd, copy_node(schema, t, o.node, o.bufid == self.holder_buf)
         if "dims" in spec:
             shape = spec["shape"]
             n = 1
